@@ -141,7 +141,7 @@ def cleanup_nodes():
 
 
 OMIT_WINDOW = 1e6       # seconds: every announcement of an unchanged value (without a pending error) is omitted
-OMIT_MODELLED = {'floatenum', 'limits', 'control'}   # families whose model covers the omission of unchanged updates (the others: judged only)
+OMIT_MODELLED = {'floatenum', 'limits', 'control', 'struct'}   # families whose model covers the omission of unchanged updates (the others: judged only)
 
 
 def pending(pobj):
@@ -246,6 +246,7 @@ def impl_struct(case):
                 evs.append(['mem', par[1 + len(prefix):], num(val)])
         return {'struct': obs_dict(members, mod.parameters['ctrl'].value),
                 'mem': [[m, num(mod.parameters[prefix + m].value)] for m in members],
+                'sP': pending(mod.parameters['ctrl']), 'mP': [pending(mod.parameters[prefix + m]) for m in members],
                 'evs': evs, 'ok': ok, 'exc': exc}
 
     trace = [snapshot(True)]
@@ -298,10 +299,11 @@ def impl_struct(case):
     return trace
 
 
-def wire_struct(case):
+def wire_struct(case, trace):
     case = struct_case(case)
     return {'p': 'C18', 'k': 'struct', 'members': case['members'], 'hasRS': case['hasRS'], 'hasWS': case['hasWS'],
-            'hasR': case['hasR'], 'hasW': case['hasW'], 'ops': [op[:-1] for op in case['ops']]}
+            'hasR': case['hasR'], 'hasW': case['hasW'], 'omit': bool(case.get('omit')), 'sP0': trace[0]['sP'],
+            'mP0': [m for m, p in zip(case['members'], trace[0]['mP']) if p], 'ops': [op[:-1] for op in case['ops']]}
 
 
 def judge_struct_req(case, trace):
@@ -1210,7 +1212,7 @@ def prepare(case):
     kind = case['kind']
     if kind == 'struct':
         trace = impl_struct(case)
-        return trace, wire_struct(case), judge_struct_req(case, trace), trace
+        return trace, wire_struct(case, trace), judge_struct_req(case, trace), trace
     if kind == 'floatenum':
         vdict, lo, hi, trace = impl_floatenum(case)
         model, judge, canon = fe_requests(case, vdict, lo, hi, trace)
@@ -1246,7 +1248,7 @@ def model_obs(case, answer):
 def impl_obs(case, canon):
     kind = case['kind']
     if kind == 'struct':
-        return [{k: t[k] for k in ('struct', 'mem', 'evs', 'ok', 'exc')} for t in canon]
+        return [{k: t[k] for k in ('struct', 'mem', 'sP', 'mP', 'evs', 'ok', 'exc')} for t in canon]
     if kind == 'control':
         return [{k: t[k] for k in ('cb', 'act', 'cbP', 'actP', 'evs', 'ok')} for t in canon]
     return canon
